@@ -10,8 +10,17 @@ import SoyVerif.Model.Ast
 namespace SoyVerif.Model.Printer
 open SoyVerif SoyVerif.Model
 
-/-- decimal digits of a natural number -/
-def natDigits (n : Nat) : Bytes := (toString n).toUTF8.toList
+/-- digits of `n`, most significant first, in front of `acc` (the fuel bounds the number of digits) -/
+def natDigitsAux : Nat → Nat → Bytes → Bytes
+  | 0, _, acc => acc
+  | fuel + 1, n, acc =>
+    if n < 10 then UInt8.ofNat (48 + n) :: acc
+    else natDigitsAux fuel (n / 10) (UInt8.ofNat (48 + n % 10) :: acc)
+
+/-- decimal digits of a natural number (`0` ↦ "0"); structural on a fuel so that the kernel
+    can compute it and `Lemmas/ParserLit.lean` can prove that `parseInt10` reads it back
+    (extensionally `(toString n).toUTF8.toList`; tied by the C17 correspondence) -/
+def natDigits (n : Nat) : Bytes := natDigitsAux (n + 1) n []
 
 /-- strconv.FormatInt(v, 10) / strconv.Itoa -/
 def fmtInt (v : Int) : Bytes :=
@@ -42,11 +51,9 @@ def precedenceOf : Expr → Nat
   | .bin op .. => binPrec op
   | _ => precPrimary
 
-/-- ast.quoteString: a Soy string literal for `s` (rune by rune; the escapes are all
-    ASCII, every other rune is copied — an invalid byte becomes U+FFFD through
-    `WriteRune`, which the model reproduces). -/
+/-- one byte of ast.quoteString: the escapes, every other byte is copied -/
 def quoteByte (b : UInt8) : Bytes :=
-  if b == 92 then [92, 92]          -- \
+  if b == 92 then [92, 92]          -- \\
   else if b == 39 then [92, 39]     -- '
   else if b == 10 then [92, 110]
   else if b == 13 then [92, 114]
@@ -54,6 +61,9 @@ def quoteByte (b : UInt8) : Bytes :=
   else if b == 8 then [92, 98]
   else if b == 12 then [92, 102]
   else [b]
+
+/-- ast.quoteString: a Soy string literal for `s`, byte by byte (`for i := 0; i < len(s); i++`) -/
+def quoteString (s : Bytes) : Bytes := [39] ++ s.flatMap quoteByte ++ [39]
 
 section
 variable (ff : UInt64 → Bytes)
@@ -105,7 +115,7 @@ mutual
   def printMapEntries : MapItems → Bool → Bytes
     | .nil, _ => []
     | .cons k e r, first =>
-        (if first then [] else [44, 32]) ++ [39] ++ k.flatMap quoteByte ++ [39] ++ [58, 32] ++ printExpr e ++ printMapEntries r false
+        (if first then [] else [44, 32]) ++ quoteString k ++ [58, 32] ++ printExpr e ++ printMapEntries r false
   def printAccesses : AccessList → Bytes
     | .nil => []
     | .cons a r => printAccess a ++ printAccesses r
